@@ -131,9 +131,9 @@ Definition s_server_res_ok := server_res_ok sterm SPrf SPair shash SFin sterm_eq
 
 (* ---- the witness for F5: a ClientHello rewritten in transit (say, cipher-suite order swapped or
    an extension stripped), no extended master secret, no client authentication *)
-Definition f5_client_view : view (term := sterm) :=
+Definition f5_client_view : view sterm :=
   mk_view [SAtom 100 (* ClientHello as sent *); SAtom 2 (* ServerHello *); SAtom 3 (* .. ServerHelloDone *);
            SAtom 4 (* ClientKeyExchange *)] [] (SAtom 10) (SAtom 11) (SSecret 1) false false.
-Definition f5_server_view : view (term := sterm) :=
+Definition f5_server_view : view sterm :=
   mk_view [SAtom 101 (* ClientHello as received *); SAtom 2; SAtom 3; SAtom 4] [] (SAtom 10) (SAtom 11) (SSecret 1)
           false false.
